@@ -24,39 +24,26 @@ type hop struct {
 }
 
 type memoKey struct {
-	lo, hi uint64
-	val    int
+	bits [4]uint64
+	val  int
 }
 
 // linearizable reports whether the single-register history (initial value: absent) has a
-// linearization.  At most 128 operations.
+// linearization.  At most 256 operations.
 func linearizable(ops []hop) bool {
 	n := len(ops)
-	if n > 128 {
+	if n > 256 {
 		panic("history too long for the checker")
 	}
 	sort.Slice(ops, func(i, j int) bool { return ops[i].call < ops[j].call })
 	seen := map[memoKey]bool{}
-	var lo, hi uint64
-	has := func(i int) bool {
-		if i < 64 {
-			return lo&(1<<uint(i)) != 0
-		}
-		return hi&(1<<uint(i-64)) != 0
-	}
+	var bits [4]uint64
+	has := func(i int) bool { return bits[i>>6]&(1<<uint(i&63)) != 0 }
 	set := func(i int, b bool) {
-		if i < 64 {
-			if b {
-				lo |= 1 << uint(i)
-			} else {
-				lo &^= 1 << uint(i)
-			}
+		if b {
+			bits[i>>6] |= 1 << uint(i&63)
 		} else {
-			if b {
-				hi |= 1 << uint(i-64)
-			} else {
-				hi &^= 1 << uint(i-64)
-			}
+			bits[i>>6] &^= 1 << uint(i&63)
 		}
 	}
 	var rec func(done int, cur int) bool
@@ -64,7 +51,7 @@ func linearizable(ops []hop) bool {
 		if done == n {
 			return true
 		}
-		k := memoKey{lo, hi, cur}
+		k := memoKey{bits, cur}
 		if seen[k] {
 			return false
 		}
@@ -114,7 +101,7 @@ type rec struct {
 // and no read may return the value of a write that reported an error.
 func runConc(kv map[string]int) string {
 	g, n, keys := kv["g"], kv["n"], kv["keys"]
-	if g <= 0 || n <= 0 || keys <= 0 || g*n/keys > 110 {
+	if g <= 0 || n <= 0 || keys <= 0 || g*n/keys > 110 || (kv["hw"] == 1 && g*n*2/keys > 240) {
 		return "bad-op"
 	}
 	dir, err := os.MkdirTemp("", "verif-queue-conc-")
@@ -122,7 +109,14 @@ func runConc(kv map[string]int) string {
 		panic(err)
 	}
 	defer os.RemoveAll(dir)
-	db := openDB(dir, map[string]int{"mbc": 64, "mbs": 1 << 20, "wbc": 64, "wbs": 1 << 20, "hot": kv["hot"], "vt": 16})
+	okv := map[string]int{"mbc": 64, "mbs": 1 << 20, "wbc": 64, "wbs": 1 << 20, "hot": kv["hot"], "vt": 16}
+	hw := kv["hw"] == 1
+	if hw {
+		// hot-write batching: keys become "hot" after 2 writes, the worker waits 300µs for more
+		// requests so that concurrent writers of one key meet in one commit batch
+		okv["hwb"], okv["wbw"] = 2, 300
+	}
+	db := openDB(dir, okv)
 	defer func() { defer func() { recover() }(); db.Close() }()
 	var clock int64
 	var mu sync.Mutex
@@ -183,6 +177,15 @@ func runConc(kv map[string]int) string {
 					rc.rt = atomic.AddInt64(&clock, 1)
 				}
 				local = append(local, rc)
+				if hw && rc.kind != "get" {
+					// read-your-write right after the return: a write acknowledged before it
+					// (or its overwriter) is visible shows up here
+					rd := rec{kind: "get", key: k}
+					rd.call = atomic.AddInt64(&clock, 1)
+					rd.res = doOp(db, "get", keyBytes(k), nil)
+					rd.rt = atomic.AddInt64(&clock, 1)
+					local = append(local, rd)
+				}
 			}
 			mu.Lock()
 			all = append(all, local...)
@@ -268,7 +271,7 @@ func runConc(kv map[string]int) string {
 		}
 		if !linearizable(h) {
 			dumpHistory(k, all)
-			return fmt.Sprintf("lin-violation:key=%d-no-linearization-of-%d-ops", k, len(h))
+			return fmt.Sprintf("lin-violation:key=%d-history-has-no-linearization(work/queue_conc_violation.txt)", k)
 		}
 		atomic.AddInt64(&concStats.keysChecked, 1)
 	}
